@@ -61,6 +61,7 @@ type world struct {
 	mArmed     *Op
 	mBodyRes   string
 	mIter      *objmodel.ForInIterator // enumeration kept open across ops (model side)
+	rejected   map[string]string       // abstract op -> world state in which it was rejected without changing anything
 	mIterLoose bool                    // a trigger event ended the exact-order guarantee of the open enumeration
 	slotSeen   map[string]bool         // keys the open enumeration produced so far
 	slotObj    string                  // object of the open enumeration
@@ -220,7 +221,7 @@ type hostS struct {
 func (s *hostS) M() int { return s.A }
 
 func newWorld(tag string, c *Case, mon *monitors) *world {
-	w := &world{tag: tag, c: c, mon: mon, fn: map[string]goja.Callable{}, objs: map[string]*goja.Object{}, syms: map[string]*goja.Symbol{}, inv: map[string]*invState{}, last: map[string]string{}}
+	w := &world{tag: tag, c: c, mon: mon, fn: map[string]goja.Callable{}, objs: map[string]*goja.Object{}, syms: map[string]*goja.Symbol{}, inv: map[string]*invState{}, last: map[string]string{}, rejected: map[string]string{}}
 	w.rt = gj.NewRuntime()
 	goja.VerifSetFuel(w.rt, worldFuel)
 	var dv goja.Value
@@ -598,4 +599,14 @@ func (w *world) snapshot(name string) {
 		}
 		name = mo.Proto.Name
 	}
+}
+
+// stateKey is the observable state of the world: the latest structural dump of every world object.
+func (w *world) stateKey() string {
+	var b strings.Builder
+	for _, n := range worldObjects {
+		b.WriteString(w.last[n])
+		b.WriteByte('\n')
+	}
+	return b.String()
 }
